@@ -199,6 +199,8 @@ def run(prog: Program, rep, tier="quick"):
                       "timestamp-tainted test")
     rep.rule("R13.2", "walk.py: timestamp-tainted terminations only under an exempt option test (since/until/exclusion); "
                       "_topo_reorder reads no timestamp")
+    rep.rule("R13.3", "merge-base candidates pass a redundancy filter when there is more than one; commit-graph extra-edge list is "
+                      "terminated on the element the loop iterates")
     rep.not_decided += ["that the flag propagation yields the maximal common ancestors for every exploration order",
                         "octopus reduction", "agreement with git"]
     rep.assumptions += ["timestamp sources: .commit_time/.author_time, lookup_stamp(), parameters min_stamp/earliest/since/until, "
@@ -246,6 +248,38 @@ def run(prog: Program, rep, tier="quick"):
                             and isinstance(x.ctx, ast.Load)]
                     rep.ob("R13.1", "dulwich/graph.py", q, "min_stamp argument is not used for pruning", not uses,
                            "a caller passes a commit time as min_stamp and _find_lcas prunes on it", c.lineno)
+    # ---- R13.3 merge-base candidates are reduced to the maximal ones: the painting loop of _find_lcas ends as soon as every
+    # queued commit is stale, so with ties / clock skew an ancestor of another candidate can survive; a result with more
+    # than one element must pass a reachability-based redundancy filter (git: remove_redundant)
+    from sa.common import cfg_of
+    from sa.cfg import node_calls
+    from sa.flow import reach
+    gm = prog.module("dulwich/graph.py")
+    fl = prog.func("dulwich/graph.py", "_find_lcas")
+    filters = []
+    for q, f in gm.funcs.items():
+        if f is fl or "#" in q or "." in q:
+            continue
+        ps = [a.arg for a in f.node.args.args]
+        walks = any(isinstance(c, ast.Call) and isinstance(c.func, ast.Name) and c.func.id in ps and "parent" in c.func.id for c in ast.walk(f.node)) \
+            and any(isinstance(x, (ast.While, ast.For)) for x in ast.walk(f.node))
+        filt = any(isinstance(x, ast.ListComp) and any(isinstance(o, ast.NotIn) for g_ in x.generators for i_ in g_.ifs for cmp_ in ast.walk(i_)
+                                                       if isinstance(cmp_, ast.Compare) for o in cmp_.ops) for x in ast.walk(f.node))
+        if walks and filt:
+            filters.append(f.name)
+    g = cfg_of(prog, fl)
+    calls = [i for i, n in g.nodes.items() for c in node_calls(n) if callee_name(c) in filters]
+    rets = [i for i, n in g.nodes.items() if n.kind == "stmt" and isinstance(n.ast, ast.Return)]
+    single = [i for i, n in g.nodes.items() if n.kind == "test" and "len(" in norm(n.ast) and "> 1" in norm(n.ast)]
+    r = reach(g, [g.entry], avoid=set(calls), include_srcs=True, edge_ok=lambda a, b, l: not (a in single and l == "false"))
+    rep.ob("R13.3", "dulwich/graph.py", "_find_lcas", "a result with more than one candidate passes a reachability-based redundancy filter",
+           bool(filters) and bool(calls) and not any(x in r for x in rets),
+           "the candidates collected by the time-ordered painting loop are returned as they are: with tied or backward timestamps "
+           "a non-maximal common ancestor is reported as an additional merge base (and can_fast_forward answers False)", fl.node.lineno)
+    # the commit-graph writer flags the last extra edge of the sequence it iterates (the reader stops there)
+    from rules import c14
+    cgm = prog.module("dulwich/commit_graph.py")
+    c14.enumerate_last(prog, rep, "R13.3", cgm, prog.func(cgm.rel, "CommitGraph.write_to_file"))
     rep.count("functions analysed", sum(n_funcs.values()))
     if n_funcs["dulwich/graph.py"] < 3 or n_funcs["dulwich/walk.py"] < 4:
         raise AnalysisError(f"too few traversal functions found: {n_funcs}")
